@@ -266,6 +266,9 @@ class Tag(BaseTag):
                 del self._h5group["position"]
         else:
             dtype = DataType.Double
+            # convert first, so that unusable values are refused before
+            # the stored position is touched
+            pos = np.array(pos, dtype=dtype)
             self._h5group.write_data("position", pos, dtype)
         if self.file.auto_update_timestamps:
             self.force_updated_at()
@@ -289,6 +292,9 @@ class Tag(BaseTag):
                 del self._h5group["extent"]
         else:
             dtype = DataType.Double
+            # convert first, so that unusable values are refused before
+            # the stored extent is touched
+            ext = np.array(ext, dtype=dtype)
             self._h5group.write_data("extent", ext, dtype)
         if self.file.auto_update_timestamps:
             self.force_updated_at()
